@@ -7,10 +7,14 @@
     solves of LM are instantiated by C01's models of [Matrix::solve] / [Matrix::inv] ([mat_solve_vec],
     [mat_inv], Model/SolveInst.v: always LU) and the hypothesis "the inner solve returns a solution" is
     discharged from C01's theorems.  Those theorems assume nothing about the inner solves; what remains is
-    a condition on the data along the run: J^T J + mu diag(J^T J) has a left inverse at each iterate. *)
+    a condition on the data along the run: J^T J + mu diag(J^T J) has a left inverse at each iterate.
+
+    UNCONDITIONAL (last section, proofs in Proofs/C10_damped.v): that condition is PROVED from a condition on the
+    problem - every Jacobian returned has one column per parameter and no zero column - and tau > 0: mu stays > 0
+    along the run and J^T J + mu diag(J^T J) is symmetric positive definite at every iterate. *)
 From Coq Require Import List Arith ZArith Bool Reals.
 From Compute Require Import Base.Ops Base.ListMat Model.Reduce Model.MatMul Model.Subst Model.SolveInst Model.Optim Spec.Optim
-  Proofs.C10 Proofs.C10_lm Proofs.C10_compose.
+  Proofs.C10 Proofs.C10_lm Proofs.C10_compose Proofs.C10_damped.
 From Compute Require Spec.Factor Spec.Solve.
 Import ListNotations.
 
@@ -240,3 +244,124 @@ Theorem C10_example_composed :
      Spec.Solve.nonsingular (dat (damp RO (lm_jtj st) (lm_mu st))) (nr (lm_jtj st)) ->
      damped_nonsingular_along resid jac1 h 1 st).
 Proof. exact (conj damped_1x1_nonsingular damped_nonsingular_along_one). Qed.
+
+(** ** the data condition discharged from a condition on the PROBLEM (proofs in Proofs/C10_damped.v) *)
+
+(** Marquardt scaling D = diag(G): for G positive semi-definite with a positive diagonal and mu > 0,
+    G + mu diag(G) (as [damp] builds it) is POSITIVE DEFINITE *)
+Theorem C10_damped_matrix_positive_definite_diag :
+  forall (G : matrix (T:=R)) (mu : R),
+    psd G -> length (dat G) = nr G * nc G -> (0 < mu)%R ->
+    (forall i, i < nr G -> (0 < entry G i i)%R) ->
+    forall x : nat -> R, (exists i, i < nr G /\ x i <> 0%R) ->
+      (0 < Spec.Factor.rsum (fun a => Spec.Factor.rsum (fun b =>
+             x a * Spec.Factor.getm (dat (damp RO G mu)) (nr G) a b * x b) (nr G)) (nr G))%R.
+Proof. exact damped_positive_definite. Qed.
+
+(** at the J^T J the code computes from a Jacobian J (list of rows of length p) WITHOUT ZERO COLUMN, for every
+    mu > 0: J^T J + mu diag(J^T J) is positive definite, symmetric, and has a left inverse - so the LM step
+    is defined (C10_inner_solve_correct_composed applies) *)
+Theorem C10_damped_matrix_positive_definite :
+  forall (J : list (list R)) (p : nat) (r : list R) (G : matrix (T:=R)) (g : list R) (mu : R),
+    normal_eqs RO J p r = Some (G, g) ->
+    ((forall row, In row J -> length row = p) /\
+     (forall i, i < p -> exists row, In row J /\ nth i row 0%R <> 0%R)) ->
+    (0 < mu)%R ->
+    (forall x : nat -> R, (exists i, i < nr G /\ x i <> 0%R) ->
+       (0 < Spec.Factor.rsum (fun a => Spec.Factor.rsum (fun b =>
+              x a * Spec.Factor.getm (dat (damp RO G mu)) (nr G) a b * x b) (nr G)) (nr G))%R) /\
+    (forall i j, i < nr G -> j < nr G ->
+       Spec.Factor.getm (dat (damp RO G mu)) (nr G) i j = Spec.Factor.getm (dat (damp RO G mu)) (nr G) j i) /\
+    Spec.Solve.nonsingular (dat (damp RO G mu)) (nr G).
+Proof. exact damped_gram_nonsingular. Qed.
+
+(** the mu / nu schedule of the repaired code keeps the damping positive: whatever the solver, the residuals
+    and the Jacobian, a step (and a whole loop) from mu > 0, nu > 0 ends with mu > 0, nu > 0
+    (accepted: mu * max(1/3, 1 - (2 rho - 1)^3), nu := 2;  rejected: mu * nu, nu * 2) *)
+Theorem C10_lm_damping_stays_positive :
+  forall (resid : list R -> option (list R)) (jac1 : list R -> option (list (list R)))
+         (solve : matrix (T:=R) -> list R -> option (list R)) (h : lm_hp (T:=R)) (st st' : lm_state (T:=R)),
+    (0 < lm_mu st)%R -> (0 < lm_nu st)%R ->
+    (lm_step RO resid jac1 solve h st = Some st' -> (0 < lm_mu st')%R /\ (0 < lm_nu st')%R) /\
+    (forall fuel, lm_loop RO resid jac1 solve h fuel st = Some st' -> (0 < lm_mu st')%R /\ (0 < lm_nu st')%R).
+Proof.
+  intros resid jac1 solve h st st' Hmu Hnu. split.
+  - intros H. exact (lm_step_damping_positive resid jac1 solve h st st' H Hmu Hnu).
+  - intros fuel H. exact (lm_loop_damping_positive resid jac1 solve h fuel st st' H Hmu Hnu).
+Qed.
+
+(** the data condition of the composed theorems HOLDS on every run, for every step budget, as soon as tau > 0
+    and every Jacobian returned (at the start point by [jac0], at accepted points by [jac1]) has rows of the
+    parameters' length and no zero column *)
+Theorem C10_damped_nonsingular_along_holds :
+  forall (resid : list R -> option (list R)) (jac0 jac1 : list R -> option (list (list R))) (h : lm_hp (T:=R)),
+    (forall ps J, jac0 ps = Some J \/ jac1 ps = Some J ->
+       (forall row, In row J -> length row = length ps) /\
+       (forall i, i < length ps -> exists row, In row J /\ nth i row 0%R <> 0%R)) ->
+    forall (maxsteps : nat) (ps0 : list R) (st0 : lm_state (T:=R)),
+    (0 < l_tau h)%R -> lm_init RO resid jac0 h ps0 = Some st0 ->
+    damped_nonsingular_along resid jac1 h maxsteps st0.
+Proof. exact damped_nonsingular_along_holds. Qed.
+
+(** ... and at every state the run (with C01's solver) reaches: mu > 0, nu > 0, damped matrix positive definite *)
+Theorem C10_lm_run_damped_positive_definite :
+  forall (resid : list R -> option (list R)) (jac0 jac1 : list R -> option (list (list R))) (h : lm_hp (T:=R)),
+    (forall ps J, jac0 ps = Some J \/ jac1 ps = Some J ->
+       (forall row, In row J -> length row = length ps) /\
+       (forall i, i < length ps -> exists row, In row J /\ nth i row 0%R <> 0%R)) ->
+    forall (maxsteps : nat) (ps0 : list R) (st0 st : lm_state (T:=R)),
+    (0 < l_tau h)%R -> lm_init RO resid jac0 h ps0 = Some st0 ->
+    lm_loop RO resid jac1 (mat_solve_vec RO) h maxsteps st0 = Some st ->
+    (0 < lm_mu st)%R /\ (0 < lm_nu st)%R /\
+    forall x : nat -> R, (exists i, i < nr (lm_jtj st) /\ x i <> 0%R) ->
+      (0 < Spec.Factor.rsum (fun a => Spec.Factor.rsum (fun b =>
+             x a * Spec.Factor.getm (dat (damp RO (lm_jtj st) (lm_mu st))) (nr (lm_jtj st)) a b * x b)
+             (nr (lm_jtj st))) (nr (lm_jtj st)))%R.
+Proof. exact lm_run_damped_positive_definite. Qed.
+
+(** THE HEADLINE, UNCONDITIONALLY: LM with C01's LU solve never returns parameters with a larger residual sum
+    of squares than the start point - every step budget, every residual function; nothing assumed about the
+    inner solves and nothing about the run: only tau > 0 and no zero column in any Jacobian returned *)
+Theorem C10_lm_never_worse_unconditional :
+  forall (resid : list R -> option (list R)) (jac0 jac1 : list R -> option (list (list R))) (h : lm_hp (T:=R)),
+    (forall ps J, jac0 ps = Some J \/ jac1 ps = Some J ->
+       (forall row, In row J -> length row = length ps) /\
+       (forall i, i < length ps -> exists row, In row J /\ nth i row 0%R <> 0%R)) ->
+    forall (maxsteps : nat) (ps0 popt cov : list R),
+    (0 < l_tau h)%R ->
+    lm RO resid jac0 jac1 (mat_solve_vec RO) (fun m => option_map (@dat R) (mat_inv RO m)) h maxsteps ps0 = Some (popt, cov) ->
+    exists r0 r, resid ps0 = Some r0 /\ resid popt = Some r /\ (dot_raw RO r r <= dot_raw RO r0 r0)%R.
+Proof. exact lm_never_worse_unconditional. Qed.
+
+(** what is returned, under the same hypotheses on the problem only *)
+Theorem C10_lm_result_unconditional :
+  forall (resid : list R -> option (list R)) (jac0 jac1 : list R -> option (list (list R))) (h : lm_hp (T:=R)),
+    (forall ps J, jac0 ps = Some J \/ jac1 ps = Some J ->
+       (forall row, In row J -> length row = length ps) /\
+       (forall i, i < length ps -> exists row, In row J /\ nth i row 0%R <> 0%R)) ->
+    forall (maxsteps : nat) (ps0 popt cov : list R),
+    (0 < l_tau h)%R ->
+    lm RO resid jac0 jac1 (mat_solve_vec RO) (fun m => option_map (@dat R) (mat_inv RO m)) h maxsteps ps0 = Some (popt, cov) ->
+    exists r J G g ji,
+      length popt = length ps0 /\ resid popt = Some r /\
+      (jac0 popt = Some J \/ jac1 popt = Some J) /\
+      normal_eqs RO J (length popt) r = Some (G, g) /\
+      option_map (@dat R) (mat_inv RO G) = Some ji /\ length popt <= length r /\
+      cov = map (Rmult (dot_raw RO r r / IZR (Z.of_nat (length r - length popt)))) ji /\
+      (Spec.Solve.nonsingular (dat G) (nr G) -> Spec.Solve.is_right_inverse (dat G) (nr G) ji).
+Proof. exact lm_result_unconditional. Qed.
+
+(** the condition on the problem is satisfiable on a non-trivial instance: two parameters, the Jacobian is the
+    constant matrix [[1;2];[0;3]] (a model linear in its parameters) *)
+Theorem C10_example_unconditional :
+  let jac := fun ps : list R => if length ps =? 2 then Some [[1; 2]; [0; 3]]%R else None in
+  forall ps J, jac ps = Some J \/ jac ps = Some J ->
+    (forall row, In row J -> length row = length ps) /\
+    (forall i, i < length ps -> exists row, In row J /\ nth i row 0%R <> 0%R).
+Proof. exact jac_example_cols_nonzero. Qed.
+
+(** ... and at that Jacobian [normal_eqs] returns, and J^T J + 1.diag(J^T J) has a left inverse *)
+Theorem C10_example_damped :
+  exists G g, normal_eqs RO [[1; 2]; [0; 3]]%R 2 [1; 1]%R = Some (G, g) /\
+              Spec.Solve.nonsingular (dat (damp RO G 1%R)) (nr G).
+Proof. exact damped_instance. Qed.
